@@ -230,11 +230,16 @@ def c08_run(ctx: Ctx):
             ctx.count("no_site")
             continue
         text, desc = res
-        # the unfaulted text must load (otherwise the fault is not the only problem)
-        try:
-            common.load(m.text(None, shuffle_lines=False))
-        except Exception:
-            ctx.count("base_rejected")
+        # the unfaulted text must load (otherwise the fault is not the only problem); sympy can take
+        # very long on a legal text (cos of an astronomically large literal), hence the time limit
+        base_ok = False
+        with common.time_limit(ctx, 20):
+            try:
+                common.load(m.text(None, shuffle_lines=False))
+                base_ok = True
+            except Exception:
+                ctx.count("base_rejected")
+        if not base_ok:
             continue
         with common.time_limit(ctx, 30):
             c08_case(ctx, {"text": text, "fault": fault, "desc": desc})
